@@ -44,6 +44,25 @@ fn ctx_with(k: Option<usize>, trace: Trace, count: Arc<AtomicUsize>) -> c2pa::Re
         }))
 }
 
+/// Where the callback finds the context it belongs to (filled in once the context is shared).
+type Slot = Arc<Mutex<Option<Arc<Context>>>>;
+
+/// Context whose callback always answers `true` but calls `Context::cancel()` on its own
+/// context during invocation `k`.
+fn ctx_cancelling_in_callback(k: usize, slot: Slot, count: Arc<AtomicUsize>) -> c2pa::Result<Context> {
+    Ok(Context::new()
+        .with_settings(settings())?
+        .with_progress_callback(move |_phase: ProgressPhase, _step, _total| {
+            let i = count.fetch_add(1, Ordering::SeqCst);
+            if i == k {
+                if let Some(c) = slot.lock().unwrap().as_ref() {
+                    c.cancel();
+                }
+            }
+            true
+        }))
+}
+
 #[derive(Clone)]
 enum Op {
     Read { fmt: String, asset: Arc<Vec<u8>> },
@@ -62,21 +81,34 @@ impl Op {
 
     /// Runs the operation under `ctx`; Ok(summary) or the SDK error.
     fn exec(&self, ctx: Context) -> c2pa::Result<String> {
+        self.exec_shared(ctx, None)
+    }
+
+    /// As `exec`; the shared context is published in `slot` before the operation starts.
+    fn exec_shared(&self, ctx: Context, slot: Option<&Slot>) -> c2pa::Result<String> {
+        let share = |ctx: Context| -> Arc<Context> {
+            let a = Arc::new(ctx);
+            if let Some(s) = slot {
+                *s.lock().unwrap() = Some(a.clone());
+            }
+            a
+        };
         match self {
             Op::Read { fmt, asset } => {
-                let r = Reader::from_context(ctx).with_stream(fmt, Cursor::new(asset.as_ref().clone()))?;
+                let ctx = share(ctx);
+                let r = Reader::from_shared_context(&ctx).with_stream(fmt, Cursor::new(asset.as_ref().clone()))?;
                 Ok(format!("{:?}", r.validation_state()))
             }
             Op::Sign { fmt, src } => {
-                let ctx = ctx.with_signer(EphemeralSigner::new("verif.test")?);
-                let mut b = Builder::from_context(ctx).with_definition(definition("c23", fmt).as_str())?;
+                let ctx = share(ctx.with_signer(EphemeralSigner::new("verif.test")?));
+                let mut b = Builder::from_shared_context(&ctx).with_definition(definition("c23", fmt).as_str())?;
                 let mut out = Cursor::new(Vec::new());
                 b.save_to_stream(fmt, &mut Cursor::new(src.as_ref().clone()), &mut out)?;
                 Ok(format!("signed {}", out.into_inner().len()))
             }
             Op::Ingredient { fmt, src, ing_fmt, ing } => {
-                let ctx = ctx.with_signer(EphemeralSigner::new("verif.test")?);
-                let mut b = Builder::from_context(ctx).with_definition(definition("c23", fmt).as_str())?;
+                let ctx = share(ctx.with_signer(EphemeralSigner::new("verif.test")?));
+                let mut b = Builder::from_shared_context(&ctx).with_definition(definition("c23", fmt).as_str())?;
                 b.add_ingredient_from_stream(
                     serde_json::json!({"title": "ing", "relationship": "componentOf"}).to_string(),
                     ing_fmt,
@@ -134,6 +166,19 @@ pub fn run(run: &mut Run, rng: &mut Rng) {
                 ops.push(Op::Read { fmt: fmt.to_string(), asset: signed });
             }
             other => run.notes.push(format!("could not sign {name}: {:?}", other.map(|r| r.map(|v| v.len())))),
+        }
+    }
+    // box-hash bound assets (c2pa.hash.boxes): a different verification path with its own ticks
+    for (fmt, name) in [("image/jpeg", "IMG_0003.jpg"), ("image/png", "libpng-test.png"), ("image/gif", "sample1.gif")] {
+        if let Ok(src) = std::fs::read(fixtures().join(name)) {
+            if src.len() > max_src.max(800_000) {
+                continue;
+            }
+            let st = r#"{"verify":{"remote_manifest_fetch":false,"ocsp_fetch":false},"core":{"prefer_compress_manifests":true}}"#;
+            match guarded(|| sign_asset(fmt, &src, Some(st))) {
+                Ok(Ok(signed)) => ops.push(Op::Read { fmt: fmt.to_string(), asset: Arc::new(signed) }),
+                other => run.notes.push(format!("could not box-hash sign {name}: {:?}", other.map(|r| r.map(|v| v.len())))),
+            }
         }
     }
     // fixtures that already carry manifests with ingredients
@@ -209,6 +254,35 @@ pub fn run(run: &mut Run, rng: &mut Rng) {
                 run.fail(idx, &class, format!("{}: {detail}", op.name()));
             } else if reached && seen != k + 1 {
                 run.fail(idx, "callback-after-cancel", format!("{}: callback false at tick {k} but {seen} callbacks were observed", op.name()));
+            }
+        }
+
+        // Context::cancel() called from inside the callback of invocation k
+        for k in 0..n {
+            let slot: Slot = Default::default();
+            let count_k = Arc::new(AtomicUsize::new(0));
+            let res = guarded(std::panic::AssertUnwindSafe(|| {
+                ctx_cancelling_in_callback(k, slot.clone(), count_k.clone()).and_then(|c| op.exec_shared(c, Some(&slot)))
+            }));
+            *slot.lock().unwrap() = None; // break the Arc cycle
+            let seen = count_k.load(Ordering::SeqCst);
+            let reached = seen > k;
+            let (imp, bad): (String, Option<(String, String)>) = match res {
+                Err(p) => (format!("panic {seen}"), Some(("panic".to_string(), format!("panic: {p}")))),
+                Ok(Err(Error::OperationCancelled)) => (format!("cancelled {seen}"), None),
+                Ok(Err(e)) => (format!("err:{} {seen}", err_class(&e)), Some(("cancel-reported-as-other-error".to_string(), format!("Context::cancel() inside callback {k} ({:?}) gave error {}", t.get(k), err_class(&e))))),
+                Ok(Ok(_)) if !reached => (format!("finished {seen}"), None),
+                Ok(Ok(s)) => (format!("finished {seen}"), Some((format!("cancel-swallowed:{}", t.get(k).map(|x| x.0.clone()).unwrap_or_default()), format!("Context::cancel() called inside callback {k} ({:?}) but the operation returned Ok ({s})", t.get(k))))),
+            };
+            let req = format!("C23 cancelin n={} k={k}", if reached { n.max(seen) } else { seen });
+            if reached {
+                run.nontrivial(format!("{} in {k}", op.name()));
+            }
+            let idx = run.case(req, imp);
+            if let Some((class, detail)) = bad {
+                run.fail(idx, &class, format!("{}: {detail}", op.name()));
+            } else if reached && seen != k + 1 {
+                run.fail(idx, "callback-after-cancel", format!("{}: cancel() inside callback {k} but {seen} callbacks were observed", op.name()));
             }
         }
 
